@@ -20,7 +20,7 @@ import (
 
 func init() {
 	kinds["structfield"] = kindStructField
-	kinds["callarg"] = kindCallArg
+	kinds["varcallarg"] = kindCallArg
 	kinds["statuspred"] = kindStatusPred
 }
 
